@@ -128,6 +128,20 @@ def o_trunc(case, ctx):
     else:
         t = TruncationTransformer(lower=lo, upper=up)
     ctx.mark_nontrivial(nontrivial_panel(case) or lo is not None)
+    over = case.get("over") or 0
+    if over and lo is not None and up is not None:
+        # a requested range that ends beyond the shortest series: either the panel is refused or
+        # every cell has exactly the requested number of values - never silently fewer
+        t.set_params(upper=m + over)
+        ctx.label("range_beyond_shortest_series")
+        r = run(t, X, case=case)
+        if isinstance(r, Raised):
+            ctx.mark_rejected()
+            return []
+        lens = sorted({len(c) for row in frame_cells(r) for c in row})
+        if lens != [m + over - lo]:
+            return [D("length:trunc_beyond_series", "lower=%s upper=%s on series of lengths %s: cells of lengths %s returned" % (lo, m + over, sorted(set(case["lengths"])), lens))]
+        return []
     r = run(t, X, case=case)
     if isinstance(r, Raised):
         return [D("raised:trunc:%s" % r.type, "lower=%s upper=%s: %s" % (lo, up, r.msg))]
@@ -581,7 +595,7 @@ def subchecks():
     S = lambda name, orc, strat, q=300: SubCheck(name, orc, strat, quick=q, thorough=q * 20, shards_quick=1, shards_thorough=4)  # noqa: E731
     return [
         S("padding", o_pad, panel_cases(unequal=True, extra={"pad_length": st.one_of(st.none(), i(0, 6)), "fill": st.sampled_from([0, 0, -1, 3.5]), "via_set_params": st.booleans()})),
-        S("truncation", o_trunc, panel_cases(unequal=True, min_len=3, extra={"lower": st.one_of(st.none(), i(0, 10)), "upper": st.one_of(st.none(), i(1, 20)), "via_set_params": st.booleans()})),
+        S("truncation", o_trunc, panel_cases(unequal=True, min_len=3, extra={"lower": st.one_of(st.none(), i(0, 10)), "upper": st.one_of(st.none(), i(1, 20)), "via_set_params": st.booleans(), "over": st.sampled_from([0, 0, 0, 1, 3])})),
         S("interpolation", o_interp, panel_cases(unequal=True, extra={"length": i(1, 25)})),
         S("tabularizer", o_tab, panel_cases()),
         S("column_concatenator", o_cc, panel_cases()),
